@@ -90,6 +90,95 @@ OBJ_RULES = [
 ]
 
 
+# ---- error paths of inputs holding several values: k good values, then something the decoder rejects
+GOOD_VALUES = ['{"id":%d}', '{"id":%d,"name":"n%d"}', '[%d]', '[%d,{"id":%d}]', '"s%d"', '{"id":%d,"sub":{"k":[1,2,%d]}}']
+BAD_TAILS = ['{"id":}', "{'id':1}", "[1,,2]", "nope", "}", "]", '{"id" 1}', "\x00", "+1", '{"id":1,}', "[1 2]", '"\\x"', "tru e", "nul", "{,}", '{"a":tru}',
+             "<html>", "-", "1e", "[1,2]]", '{"id":1}}', "\xff\xfe"]
+ERR_RULES = [
+    "{ print $.id }", "{ print }", "{ n++ }\nEND { print n }", "{ print $index, $file }", "BEGINFILE { print 'bf', $file }\nENDFILE { print 'ef', $file, n }\n{ n++ }",
+    "{ s = s + $.id + ',' }\nEND { print s }", "{ printf('%v;', $) }", "{ a.push($)\n print a.length() }", "$.id > 1 { print $.id }", "{ print $.id\n $.seen = 1 }",
+    "BEGIN { print 'start' }\n{ print 'v', $index }\nEND { print 'end' }", "{ for (k, v in $) print k, v }", "{ print json($) }", "{ if ($.id == 2) next\n print $.id }",
+    "{ total += $.id\n print total }", "{ print $.id, $.name, $.sub.k }",
+]
+
+
+def err_stream(rng):
+    """(text, number of good values in front of the fault): good values, then a truncated or malformed one, then sometimes more text"""
+    k = rng.choice([0, 1, 2, 3, 3, 3, 4, 5, 8, 17, 20, 40])
+    shape = rng.random()
+    vals = [rng.choice(GOOD_VALUES).replace("%d", str(i + 1)) for i in range(k)]
+    how = rng.random()
+    if how < 0.5:
+        whole = rng.choice(GOOD_VALUES + ["true", "null", "false"]).replace("%d", str(k + 1))
+        bad = whole[:rng.randint(1, len(whole) - 1)]          # truncated at any length
+        rest = ""
+    elif how < 0.85:
+        bad = rng.choice(BAD_TAILS)
+        rest = rng.choice(["", "", "\n" + rng.choice(GOOD_VALUES).replace("%d", "99"), " x", "\n\n"])
+    else:
+        bad, rest = rng.choice(BAD_TAILS), "\n".join(rng.choice(GOOD_VALUES).replace("%d", str(90 + i)) for i in range(rng.randint(1, 20)))
+    if shape < 0.2 and k:
+        # one top-level array holding the good values and the bad one
+        return "[" + ",".join(vals) + "," + bad + rest, k
+    sep = rng.choice(["\n", "\n", "\n", " ", "", "\r\n", "\n\n", "\t"])
+    return sep.join(vals + [bad]) + rest, k
+
+
+def good_stream(rng):
+    k = rng.choice([1, 2, 3, 5])
+    return rng.choice(["\n", " ", ""]).join(rng.choice(GOOD_VALUES).replace("%d", str(i + 1)) for i in range(k))
+
+
+# ---- literals and argument lists whose members have side effects: the order of evaluation is part of the output
+EFFECTS = ["n++", "++n", "n--", "--n", "(n = n * 2 + %d)", "(s = s + '%d')", "lg.push(%d)", "tick(%d)", "(n += %d)", "q.pop()", "q.popfirst()",
+           "(o9.k%d = n++)", "[n++, n++]", "{in: n++}", "tick(n++)", "lg.length()", "(n++ + n++)"]
+ORDER_KEYS = [k for k in KEYPOOL if k.isidentifier() and k.isascii()]
+
+
+def effect(rng, j):
+    e = rng.choice(EFFECTS)
+    return e % j if "%d" in e else e
+
+
+def order_prog(rng):
+    m = rng.randint(2, 8)
+    effs = [effect(rng, j + 1) for j in range(m)]
+    keys = rng.sample(ORDER_KEYS, m)
+    form = rng.choice(["object", "object", "object", "array", "call", "print", "printf", "method", "nested", "dupkey", "binary", "index", "selector_like"])
+    if form == "object":
+        ex = "r = {%s}\n print r" % ", ".join("%s: %s" % (k if rng.random() < 0.8 else "'%s'" % k, e) for k, e in zip(keys, effs))
+    elif form == "dupkey":
+        ks = [rng.choice(keys[:2]) for _ in effs]
+        ex = "r = {%s}\n print r" % ", ".join("%s: %s" % (k, e) for k, e in zip(ks, effs))
+    elif form == "array":
+        ex = "r = [%s]\n print r" % ", ".join(effs)
+    elif form == "call":
+        ex = "r = show(%s)\n print r" % ", ".join(effs[:6])
+    elif form == "print":
+        ex = "print %s" % ", ".join(effs)
+    elif form == "printf":
+        ex = "printf('%s\\n', %s)" % (" ".join("%v" for _ in effs), ", ".join(effs))
+    elif form == "method":
+        ex = "r = {a: 1, b: 2}.pluck(key(%s), key(%s))\n print r\n r = 'x,y'.split(key2(%s, %s))\n print r" % (effs[0], effs[1], effs[0], effs[-1])
+    elif form == "nested":
+        ex = "r = {%s: [%s, {%s: %s, %s: %s}], %s: show(%s, %s)}\n print r" % (keys[0], effs[0], keys[1], effs[1], keys[0], effs[-1], keys[1], effs[0], effs[1])
+    elif form == "binary":
+        ex = "r = %s\n print r" % rng.choice([" + ", " - ", " * ", " < ", " == "]).join("(%s)" % e for e in effs[:4])
+    elif form == "index":
+        ex = "arr = [0, 0, 0, 0, 0, 0, 0, 0, 0, 0, 0, 0]\n arr[n++] = n++\n arr[n++] = %s\n print arr" % effs[0]
+    else:
+        ex = "for (k, v in {%s}) print k, v" % ", ".join("%s: %s" % (k, e) for k, e in zip(keys, effs))
+    head = ("function tick(a) { cnt = cnt + 1\n lg.push('t' + a)\n return cnt * 10 + a }\n"
+            "function show(a, b, c, d, e, f) { return [a, b, c, d, e, f] }\n"
+            "function key(a) { lg.push('k')\n return 'a' }\nfunction key2(a, b) { lg.push('k2')\n return ',' }\n")
+    init = "n = 0\n s = ''\n cnt = 0\n lg = []\n q = [7, 8, 9, 10, 11, 12, 13, 14, 15, 16, 17, 18, 19, 20, 21, 22, 23, 24]\n o9 = {}"
+    where = rng.choice(["BEGIN", "BEGIN", "main", "END"])
+    body = "%s\n %s\n print n, s, cnt, lg, q.length(), o9" % (init, ex)
+    if where == "main":
+        return head + "{ " + body + " }"
+    return head + where + " { " + body + " }"
+
+
 class C10(Check):
     pid = "C10"
     props = ["C10_determinism.v"]
@@ -98,7 +187,12 @@ class C10(Check):
             "keys (input objects with shuffled key order, objects built by the program in random insertion order), sort arrays, and "
             "store method values (via pluck, variables, members) and call them later; every case is run (a) twice in one process "
             "in two differently shuffled sessions interleaved with unrelated programs that call and overwrite methods, and (b) three "
-            "times as a fresh process of the binary; stdout, JSON output and outcome must be byte-identical.  non-trivial = an object "
+            "times as a fresh process of the binary; stdout, JSON output and outcome must be byte-identical.  Two further families are run "
+            "ten times as fresh processes (files and stdin) and twelve more times in one process: inputs of several values that end in "
+            "an ERROR (0-40 good values, then one truncated at any length / malformed / followed by more text; JSONL, concatenated, "
+            "inside one top-level array; one to three files with the bad one first, in the middle or last; every chunking; failing "
+            "reader), and programs whose object / array literals, argument lists, print lists and operands have members with side "
+            "effects (n++, push, pop, assignments, calls) so that the evaluation order shows in the output.  non-trivial = an object "
             "with at least two keys is printed or iterated")
 
     def generate(self, rng, tier):
@@ -163,6 +257,36 @@ class C10(Check):
             prog = PRINTF_PROGS[j % len(PRINTF_PROGS)]
             inp = json.dumps(rng.choice([["sponge", "soap"], [1, 2.5], {"b": 1, "a": "x"}, "s", [[1], {"k": None}]]))
             cases.append(Case(cid, simple_run(cid, prog, [inp]), {"prog": prog, "inputs": [inp], "selectors": []}, False, ("printf",)))
+        # error paths of multi-value inputs: good values followed by a truncated / malformed one, one or several files (the bad one
+        # first, in the middle or last), every chunking; what was printed before the error and the outcome must not vary
+        n_err = 130 if tier == "quick" else 2500
+        for j in range(n_err):
+            cid = "e%d" % j
+            nf = rng.choice([1, 1, 1, 2, 3])
+            badk = rng.choice([nf - 1, nf - 1, rng.randrange(nf)])
+            texts, files = [], []
+            readfail = rng.random() < 0.12
+            for k in range(nf):
+                if k == badk and not readfail:
+                    text, _ = err_stream(rng)
+                else:
+                    text = good_stream(rng)
+                b = text.encode("utf-8", "surrogateescape")
+                step = rng.choice([512, 512, 1, 3, 7, 16, 64])
+                chunks = [b[i:i + step] for i in range(0, len(b), step)]
+                texts.append(text)
+                files.append(("<test%d>" % (k + 1), chunks, readfail and k == badk))
+            prog = rng.choice(ERR_RULES) if rng.random() < 0.8 else "\n".join(rng.sample(ERR_RULES, 2))
+            sels = (rng.choice(["$", "$.id", "$.sub"]),) if rng.random() < 0.1 else ()
+            cases.append(Case(cid, run_case(cid, prog, files, sels), {"prog": prog, "inputs": texts, "selectors": list(sels), "read_failure": readfail,
+                                                                     "bad_file": badk}, False, ("errpath",)))
+        # literals / argument lists whose members have side effects
+        n_ord = 110 if tier == "quick" else 2000
+        for j in range(n_ord):
+            cid = "s%d" % j
+            prog = order_prog(rng)
+            inp = rng.choice(["[5]", "{\"b\":1,\"a\":2}", "7"])
+            cases.append(Case(cid, simple_run(cid, prog, [inp]), {"prog": prog, "inputs": [inp], "selectors": []}, True, ("order",)))
         for j, prog in enumerate(METHOD_PROGS):
             cid = "m%d" % j
             inp = json.dumps({"b": 1, "a": [1, 2], "c": "s"})
@@ -233,48 +357,101 @@ class C10(Check):
                              "the run in a fresh process gave %s %r json=%s, the same run after other runs in one process gave %s %r json=%s"
                              % (r.outcome, clip(r.stdout), jtext(r.json), base.outcome, clip(base.stdout), jtext(base.json))))
 
-        # (b) three fresh processes of the binary
-        sample = [c for c in cases if c.id not in flagged]
+        # (b) fresh processes of the binary: three per sampled case; ten for every case on an error path of a multi-value input and
+        # for every case whose literals / argument lists have members with side effects
+        sample = [c for c in cases if c.id not in flagged and not (c.tags & {"errpath", "order"})]
         rng.shuffle(sample)
         sample = sample[:150 if tier == "quick" else 1200]
-        d = tempfile.mkdtemp(prefix="c10-", dir=BUILD)
-        try:
-            for c in sample:
-                m = c.meta
-                with open(os.path.join(d, "prog"), "wb") as f:
-                    f.write(m["prog"].encode("utf-8", "surrogateescape"))
-                args = [JQAWK, "-f", "prog"]
-                for s in m["selectors"]:
-                    args += ["-r", s]
-                names = []
-                for i, text in enumerate(m["inputs"]):
-                    nm = "in%d.json" % i
-                    with open(os.path.join(d, nm), "wb") as f:
-                        f.write(text.encode("utf-8", "surrogateescape"))
-                    names.append(nm)
-                if len(names) == 1:
-                    args += ["-o", "-"]
-                args += names
-                outs = []
-                for rep in range(3):
-                    try:
-                        p = subprocess.run(args, cwd=d, stdin=subprocess.DEVNULL, stdout=subprocess.PIPE, stderr=subprocess.PIPE, timeout=5)
-                        outs.append((p.returncode, p.stdout))
-                    except subprocess.TimeoutExpired:
-                        outs = None
-                        break
-                if outs is None:
+        many = [c for c in cases if c.id not in flagged and (c.tags & {"errpath", "order"}) and not c.meta.get("read_failure")]
+        v, st = self.fresh_binary(sample, 3)
+        viol += v
+        v2, st2 = self.fresh_binary(many, 10)
+        viol += v2
+        stats["fresh_process_runs"] = st["runs"] + st2["runs"]
+        stats["inconclusive_repetitions"] += st["inconclusive"] + st2["inconclusive"]
+        # (c) the error-path cases many more times in one process
+        errs = [c for c in cases if c.id not in flagged and "errpath" in c.tags]
+        lines = [relabel(c.line, "%s_r%d" % (c.id, k)) for k in range(12) for c in errs]
+        rng.shuffle(lines)
+        res = _run_binary(JQH, lines, 900)
+        stats["inprocess_runs"] += len(lines)
+        for c in errs:
+            base = first.get(c.id)
+            for k in range(12):
+                r = RunRes(res.get("%s_r%d" % (c.id, k), []))
+                if base is None or any(x.outcome in ("timeout", "noresult", "crash", "badcase") for x in (r, base)):
                     stats["inconclusive_repetitions"] += 1
                     continue
-                stats["fresh_process_runs"] += 3
-                if outs[0] != outs[1] or outs[0] != outs[2]:
-                    k = 1 if outs[0] != outs[1] else 2
-                    viol.append((Case(c.id, c.line, dict(m, repetition="fresh processes", argv=args[1:]), c.nontrivial, c.tags),
-                                 "fresh processes of the binary differ: run 1 exit %d %r, run %d exit %d %r"
-                                 % (outs[0][0], clip(outs[0][1]), k + 1, outs[k][0], clip(outs[k][1]))))
-        finally:
-            shutil.rmtree(d, ignore_errors=True)
+                if (r.outcome, r.stdout, r.json) != (base.outcome, base.stdout, base.json):
+                    viol.append((Case(c.id, c.line, dict(c.meta, repetition="same process, repeated"), c.nontrivial, c.tags),
+                                 "two runs of the same program on the same (faulty) input differ: first run gave %s %r, repetition %d gave %s %r"
+                                 % (base.outcome, clip(base.stdout), k + 1, r.outcome, clip(r.stdout))))
+                    break
         return viol, stats
+
+
+def fresh_binary(self, sample, reps, jqawk=None):
+    """run every case `reps` times as a fresh process of the binary (input from files; a single input alternately on stdin)"""
+    jqawk = jqawk or JQAWK
+    viol, stats = [], {"runs": 0, "inconclusive": 0}
+    d = tempfile.mkdtemp(prefix="c10-", dir=BUILD)
+
+    def one(ic):
+        i, c = ic
+        m = c.meta
+        wd = os.path.join(d, "w%d" % i)
+        os.mkdir(wd)
+        with open(os.path.join(wd, "prog"), "wb") as f:
+            f.write(m["prog"].encode("utf-8", "surrogateescape"))
+        args = [jqawk, "-f", "prog"]
+        for s in m["selectors"]:
+            args += ["-r", s]
+        names = []
+        for k, text in enumerate(m["inputs"]):
+            nm = "in%d.json" % k
+            with open(os.path.join(wd, nm), "wb") as f:
+                f.write(text.encode("utf-8", "surrogateescape"))
+            names.append(nm)
+        if len(names) == 1:
+            args += ["-o", "-"]
+        stdin_bytes = None
+        if len(names) == 1 and (c.tags & {"errpath", "order"}) and i % 2:
+            stdin_bytes = m["inputs"][0].encode("utf-8", "surrogateescape")
+        else:
+            args += names
+        outs = []
+        for rep in range(reps):
+            try:
+                if stdin_bytes is None:
+                    p = subprocess.run(args, cwd=wd, stdin=subprocess.DEVNULL, stdout=subprocess.PIPE, stderr=subprocess.PIPE, timeout=5)
+                else:
+                    p = subprocess.run(args, cwd=wd, input=stdin_bytes, stdout=subprocess.PIPE, stderr=subprocess.PIPE, timeout=5)
+                outs.append((p.returncode, p.stdout))
+            except subprocess.TimeoutExpired:
+                return c, None, args, stdin_bytes is not None
+        return c, outs, args, stdin_bytes is not None
+
+    try:
+        with ThreadPoolExecutor(max_workers=8) as ex:
+            results = list(ex.map(one, enumerate(sample)))
+        for c, outs, args, on_stdin in results:
+            if outs is None:
+                stats["inconclusive"] += 1
+                continue
+            stats["runs"] += len(outs)
+            for k in range(1, len(outs)):
+                if outs[k] != outs[0]:
+                    distinct = len(set(outs))
+                    viol.append((Case(c.id, c.line, dict(c.meta, repetition="fresh processes", argv=args[1:], input_on_stdin=on_stdin), c.nontrivial, c.tags),
+                                 "fresh processes of the binary differ (%d distinct results in %d runs): run 1 exit %d %r, run %d exit %d %r"
+                                 % (distinct, len(outs), outs[0][0], clip(outs[0][1]), k + 1, outs[k][0], clip(outs[k][1]))))
+                    break
+    finally:
+        shutil.rmtree(d, ignore_errors=True)
+    return viol, stats
+
+
+C10.fresh_binary = fresh_binary
 
 
 def jtext(field):
